@@ -361,8 +361,11 @@ pub fn run_script(opts: &[&str], script: &[Step], healthy: &[u8], expect_in_fina
                         // healthy connection: deliver and stay open
                         let _ = s.write_all(healthy);
                         let _ = s.flush();
-                        let ok = wait_until(|| expect_in_final(&snapshot(&table)));
-                        let _ = ok;
+                        // everything delivered has been processed once the reader is blocked reading again; the
+                        // predicate is only waited for when that could not be observed
+                        if !wait_consumed(&s) {
+                            let _ = wait_until(|| expect_in_final(&snapshot(&table)));
+                        }
                         rep.final_table = snapshot(&table);
                         rep.elapsed_ms = shim::wall_elapsed_ms();
                         rep.alive = !handle.is_finished();
